@@ -7,6 +7,7 @@ CONSTANTS
   AllowCrash = TRUE
   MaxFaults = 0
   NoFile = NoFile
+  IsEmptyData <- MCIsEmpty
 SPECIFICATION Spec
 INVARIANTS ContentAtomic NoPartialRecord Resolvable CrashAtomic
 CHECK_DEADLOCK FALSE
